@@ -78,6 +78,13 @@ func (f *Flow) classAt(v ssa.Value, at *ssa.BasicBlock, depth int) NilClass {
 			if callee.Signature.Results().Len() == 1 && f.AlwaysNonNil(callee, 0) {
 				return DefNonNil
 			}
+			// a library helper that hands one of its parameters back unchanged on every return
+			// (e.g. "log the failure and return the same error")
+			if i, ok := PassThroughParam(callee); ok && i < len(x.Call.Args) {
+				if c := f.classAt(x.Call.Args[i], at, depth+1); c != MaybeNil {
+					return c
+				}
+			}
 			// oops.Wrapf(err, ...) is non-nil iff err is; classify through the cause
 			if FnPkgPath(callee) == "github.com/samber/oops" && (callee.Name() == "Wrapf" || callee.Name() == "Wrap") && len(x.Call.Args) > 0 {
 				if c := f.classAt(x.Call.Args[0], at, depth+1); c != MaybeNil {
@@ -342,6 +349,32 @@ func (f *Flow) RetClass(ret *ssa.Return) NilClass {
 		return MaybeNil
 	}
 	return f.ClassAt(ret.Results[i], ret.Block())
+}
+
+// PassThroughParam: fn is a library function with a single result that is, on every return, the
+// same parameter (index returned).
+func PassThroughParam(fn *ssa.Function) (int, bool) {
+	if fn == nil || !InLib(fn) || len(fn.Blocks) == 0 || fn.Signature.Results().Len() != 1 {
+		return 0, false
+	}
+	idx := -1
+	for _, ret := range Returns(fn) {
+		prm, ok := ret.Results[0].(*ssa.Parameter)
+		if !ok {
+			return 0, false
+		}
+		k := -1
+		for i, q := range fn.Params {
+			if q == prm {
+				k = i
+			}
+		}
+		if k < 0 || (idx >= 0 && idx != k) {
+			return 0, false
+		}
+		idx = k
+	}
+	return idx, idx >= 0
 }
 
 // OkReturns lists the returns whose error is not definitely non-nil.
